@@ -1,3 +1,4 @@
+import os.path
 import re
 import stat
 
@@ -31,7 +32,11 @@ class BuckGophermapHandler(BaseHandler):
                 and stat.S_ISREG(self.statresult[stat.ST_MODE])
                 and self.getselector().endswith(".gophermap")
             ):
+                # A standalone *.gophermap file is served as a menu.
+                self.entry.type = "1"
+                self.entry.mimetype = "application/gopher-menu"
                 self.entry.populatefromvfs(self.vfs, self.getselector())
+                self.entry.size = None
             else:
                 self.entry.populatefromfs(
                     self.getselector(), self.statresult, vfs=self.vfs
@@ -50,6 +55,10 @@ class BuckGophermapHandler(BaseHandler):
             and stat.S_ISREG(self.statresult[stat.ST_MODE])
         ):
             selector = self.getselector()
+            # Relative links are relative to the directory the file is in.
+            self.selectorbase = os.path.dirname(selector)
+            if self.selectorbase == "/":
+                self.selectorbase = ""
         else:
             selector = self.selectorbase + "/gophermap"
 
